@@ -14,7 +14,7 @@
    consumer i sees now; [own_view i log c0]: c0 transformed by i's own successful writes only. *)
 From Verif Require Import Common.Base C06.Model C06.Proofs C06.Proofs2 C06.TreeModel C06.TreeProofs.
 From Coq Require Import Permutation.
-From Verif Require Generated.C06FanCap Generated.C06CapWrap C06.Translated C06.SessionProofs C06.Clauses C06.ClausesProofs.
+From Verif Require Generated.C06FanCap Generated.C06CapWrap C06.Translated C06.SessionProofs C06.Clauses C06.ClausesProofs C06.ModelObs.
 
 (* ---- every consumer is invoked, exactly once, whatever earlier consumers returned -------------- *)
 (* The consumers called so far are a prefix of the fixed call order, one per LCall label ... *)
@@ -313,3 +313,57 @@ Print Assumptions prop_ok_session_sound_complete.
 Theorem clause_capability_is_model : forall caps, Clauses.spec_fan caps = fan_cap (new_fan caps).
 Proof. exact ClausesProofs.spec_fan_is_fan_cap_l. Qed.
 Print Assumptions clause_capability_is_model.
+
+(* ---- the link: whatever the MODEL produces passes the clause checker ------------------------------------ *)
+(* [observe] builds the observed half of a case from the model's own run exactly as the harness builds it from the
+   implementation's (Harness.model_fan).  For EVERY capability vector, input, content, error vector and script:
+   the model's observation passes Clauses.prop_ok.  Guards: the script lets the fan-out make all its calls (a
+   completed ConsumeX: the returned error and "every consumer invoked" are statements about a completed call — the
+   guard of fanout_all_called), and fewer than 500 consumers (the harness encodes "payload already seen in another
+   delivery" as a cell number >= 500).  So the checker never demands more than the model delivers (no false alarm
+   is possible on behaviour the model allows), and the checker's verdicts and the theorems above speak about the
+   same clauses. *)
+Theorem model_passes_checker : forall sig caps ro c0 errs ls,
+  List.length caps <= Clauses.n_call_labels ls -> List.length caps < 500 ->
+  Clauses.prop_ok (ModelObs.observe sig caps ro c0 errs ls) = true.
+Proof. exact ModelObs.model_passes_checker_l. Qed.
+Print Assumptions model_passes_checker.
+
+(* [observe] is what the driver compares the implementation with: check_all (= check_case && prop_ok) holds of it *)
+Theorem model_observation_agrees : forall sig caps ro c0 errs ls,
+  Harness.check_case (ModelObs.observe sig caps ro c0 errs ls) = true.
+Proof. exact ModelObs.observe_agrees. Qed.
+Print Assumptions model_observation_agrees.
+
+(* sessions: every delivery completed, fewer than 500 consumers *)
+Theorem model_passes_checker_session : forall sig caps script,
+  Forall (fun x => List.length caps <= Clauses.n_call_labels (ModelObs.in_ls x)) (Clauses.sess_inputs caps script 0) ->
+  List.length caps < 500 ->
+  Clauses.prop_ok (Harness.CSess sig caps script (Harness.model_sess caps script)) = true.
+Proof. exact ModelObs.model_passes_session_l. Qed.
+Print Assumptions model_passes_checker_session.
+
+(* pipelines, trees, routers: no guard *)
+Theorem model_passes_checker_pipe : forall sig procs exps,
+  Clauses.prop_ok (Harness.CPipe sig procs exps (pipeline_cap procs exps)) = true.
+Proof. exact ModelObs.model_passes_pipe_l. Qed.
+Print Assumptions model_passes_checker_pipe.
+
+Theorem model_passes_checker_tree : forall sig roots,
+  Clauses.prop_ok (Harness.CTree sig roots (fan_cap (new_fan (map pipe_cap_t roots))) (flat_map Harness.pipe_caps roots)) = true.
+Proof. exact ModelObs.model_passes_tree_l. Qed.
+Print Assumptions model_passes_checker_tree.
+
+Theorem model_passes_checker_router : forall sig pcaps sel,
+  Clauses.prop_ok (Harness.CRouter sig pcaps sel (fan_cap (router_fan pcaps sel)) (fan_cap (new_fan pcaps))
+                                   (Harness.router_calls pcaps sel)) = true.
+Proof. exact ModelObs.model_passes_router_l. Qed.
+Print Assumptions model_passes_checker_router.
+
+(* whole graph: the tree has the built shape and its component ids are unique (the harness numbers them) *)
+Theorem model_passes_checker_graph : forall sig tree,
+  is_router tree = true -> NoDup (map fst (upstream tree)) ->
+  let '(s', ev) := trun tree 0 [mkCell [] false] in
+  Clauses.prop_ok (Harness.CGraph sig false tree (Harness.canon_obs [0] ev) (final_obs s' ev)) = true.
+Proof. exact ModelObs.model_passes_graph_l. Qed.
+Print Assumptions model_passes_checker_graph.
